@@ -26,6 +26,7 @@ Definition enc_tr (x : tr) : list T :=
   | TTick => [Tl [Tn 8]]
   | TOut o => [Tl [Tn 9; Topt enc_c o]]
   | TLen n => [Tl [Tn 10; Tnat n]]
+  | TLate => [Tl [Tn 11]]
   end.
 
 Definition enc_trace (l : list tr) : T := Tl (flat_map enc_tr l).
@@ -33,7 +34,7 @@ Definition enc_trace (l : list tr) : T := Tl (flat_map enc_tr l).
 (* the observable of one case: the trace of the top-level script, or [-1] when the model runs out of fuel *)
 Definition obs_case (hs : list (evk * list body)) (sc : list (list nat)) (xs : list xact)
                     (os : list op) : T :=
-  match exec_ops (prog_of hs) 3 400 os (init sc xs) with
+  match exec_ops false (prog_of hs) 3 400 os (init sc xs) with
   | None => Tl [Tn (-1)]
   | Some s => if bad s then Tl [Tn (-2)] else enc_trace (trace s)
   end.
